@@ -112,6 +112,19 @@ fn chance_sampler_case(ctx: &mut Ctx, idx: u64, rng: &mut Rng, quick: bool) {
             _ => rng.range(1, 6) as f64,
         })
         .collect();
+    let mut weights = weights;
+    // now and then some outcomes have probability exactly zero (a declared weight so small that
+    // it vanishes when normalised): they must never be drawn and must not shift the others
+    if rng.chance(0.3) {
+        for w in weights.iter_mut() {
+            if rng.chance(0.3) {
+                *w = 0.0;
+            }
+        }
+        if weights.iter().all(|w| *w == 0.0) {
+            weights[0] = 1.0;
+        }
+    }
     let tot: f64 = weights.iter().sum();
     let probs: Vec<f64> = weights.iter().map(|w| w / tot).collect();
     let draws: u64 = if quick { 200_000 } else { 2_000_000 };
@@ -134,6 +147,10 @@ fn chance_sampler_case(ctx: &mut Ctx, idx: u64, rng: &mut Rng, quick: bool) {
     for (j, c) in counts.iter().enumerate() {
         let dev = (*c as f64 - draws as f64 * probs[j]).abs();
         ctx.max("max_chance_sampler_deviation_over_radius", dev / r);
+        if probs[j] == 0.0 && *c > 0 {
+            ctx.violation(idx, "C10:chance-sampler:zero-probability-outcome-drawn", &format!("outcome {} of probabilities {:?} has probability 0 but was drawn {} times in {} draws", j, probs, c, draws), json!({"probs": probs, "counts": counts, "seed": seed.to_string()}));
+            return;
+        }
         if dev > r {
             ctx.violation(
                 idx,
